@@ -13,21 +13,42 @@ import loops as L
 INIT = "::compile_instance_field_initializer"
 
 
-def subjects(fx, scope, init_suffix=INIT):
-    out = []
-    for p, f in sorted(fx.fns.items()):
+def emitters(fx, scope, init_suffix=INIT):
+    """the initialiser emitter and the helpers that call it for a list of fields (`emit_instance_member_initializers(fc, fields, ..)`): functions that
+    call it but compile no statements and emit no super call themselves"""
+    out = set()
+    for p, f in fx.fns.items():
         if f.derived or f.closure or not scope(f):
             continue
+        if p.endswith(init_suffix):
+            out.add(p)
+        elif any((t[1].get("d") or "").endswith(init_suffix) for _, t in f.calls()) and not any((t[1].get("d") or "").endswith("::compile_statement_impl") for g in fx.body_group(f) for _, t in g.calls()) \
+                and not any(s[0] == "a" and s[2][0] == "agg" and isinstance(s[2][1], dict) and str(s[2][1].get("v", "")).startswith("SuperCall") for bl in f.blocks for s in bl["s"]):
+            out.add(p)
+    return out
+
+
+def is_emit(d, em, init_suffix):
+    return bool(d) and (d.endswith(init_suffix) or d in em)
+
+
+def subjects(fx, scope, init_suffix=INIT):
+    out = []
+    em = emitters(fx, scope, init_suffix)
+    for p, f in sorted(fx.fns.items()):
+        if f.derived or f.closure or not scope(f) or p in em:
+            continue
         group = fx.body_group(f)
-        if any((t[1].get("d") or "").endswith(init_suffix) for g in group for _, t in g.calls()):
+        if any(is_emit(t[1].get("d"), em, init_suffix) for g in group for _, t in g.calls()):
             out.append(f)
     return out
 
 
 def init_sites(fx, f, init_suffix=INIT):
-    """blocks of f that emit the field initialisers: direct calls, or calls of a closure of f that does"""
-    sites = [bi for bi, t in f.calls() if (t[1].get("d") or "").endswith(init_suffix)]
-    clos = {g.path: g for g in fx.fns.values() if g.closure and g.parent == f.path and any((t[1].get("d") or "").endswith(init_suffix) for _, t in g.calls())}
+    """blocks of f that emit the field initialisers: direct calls (of the emitter or of a helper around it), or calls of a closure of f that does"""
+    em = emitters(fx, lambda g: True, init_suffix)
+    sites = [bi for bi, t in f.calls() if is_emit(t[1].get("d"), em, init_suffix)]
+    clos = {g.path: g for g in fx.fns.values() if g.closure and g.parent == f.path and any(is_emit(t[1].get("d"), em, init_suffix) for _, t in g.calls())}
     for bi, t in f.calls():
         d = t[1].get("d") or ""
         if d in clos:
